@@ -227,6 +227,11 @@ bool DOMNodeIteratorImpl::acceptNode (DOMNode* node) {
 /** Return node, if matches or any parent if matches. */
 DOMNode* DOMNodeIteratorImpl::matchNodeOrParent (DOMNode* node) {
 
+    // Removals may occur before the iterator has been stepped at all; the
+    // reference node is null then and there is nothing to match.
+    if (!fCurrentNode)
+        return 0;
+
     for (DOMNode* n = fCurrentNode; n != fRoot; n = n->getParentNode()) {
         if (node == n) return n;
     }
